@@ -485,6 +485,7 @@ def run(res):
             shutil.rmtree(xwork, ignore_errors=True)
         if mi < 3:
             res.sample({"argv": inp["argv"], "transferred": sorted(set(impl_dst) - set(m["dst"]))[:6], "error": err})
+    same_place_leg(res, top, trees, counter)
     reader_leg(res, top)
     res.extra["traces_validated_against_impl"] = res.evaluations
     res.assumptions += [
@@ -495,6 +496,42 @@ def run(res):
         "renames over an existing file, link fails on an existing destination",
         "argument parsing (argparse -> ilsdrf keyword arguments, time identifiers) is exercised by the correspondence only",
     ]
+
+
+def same_place_leg(res, top, trees, counter):
+    """the destination IS the source (the same path, the path with a trailing '/.', a symbolic link to it): nothing
+    may be lost -- cp and mv leave every file in place with its content, ln either does the same or refuses"""
+    from digital_rf import drf_command
+    rng = res.rng
+    picks = [t for t in trees if store_of(assign_contents(t[1], [0]))][:3] + rng.sample(trees, min(len(trees), 5))
+    for ti, (tname, tree) in enumerate(picks):
+        ct = assign_contents(tree, counter)
+        for op in ("cp", "mv", "ln"):
+            for how in ("same-path", "dot", "symlink"):
+                work = os.path.join(top, "same%d_%s_%s" % (ti, op, how))
+                src = os.path.join(work, "src")
+                write_ctree(src, ct)
+                dest = src if how == "same-path" else os.path.join(src, ".") if how == "dot" else os.path.join(work, "link")
+                if how == "symlink":
+                    os.symlink(src, dest)
+                before = {p: v[0] for p, v in snapshot(src)[0].items()}
+                err = None
+                try:
+                    drf_command.main([op, src, dest])
+                except SystemExit as e:
+                    err = "SystemExit(%s)" % e.code
+                except Exception as e:  # noqa
+                    err = type(e).__name__
+                after = {p: v[0] for p, v in snapshot(src)[0].items()}
+                res.case(("same-place", tname, op, how), nontrivial=bool(before))
+                res.count("destination-is-the-source:" + op)
+                if after != before:
+                    res.violation("same-place-loses-files", "drf %s of a directory onto itself (%s) lost or changed files" % (op, how),
+                                  {"argv": [op, "<src>", "<src> (%s)" % how], "tree": ct, "same_place": how}, before, after)
+                elif err not in (None, "FileExistsError"):
+                    res.violation("transfer-raises-" + str(err), "drf %s of a directory onto itself raised" % op,
+                                  {"argv": [op, "<src>", "<src> (%s)" % how], "tree": ct, "same_place": how}, "no error", err)
+                shutil.rmtree(work, ignore_errors=True)
 
 
 def reader_leg(res, top):
@@ -535,6 +572,22 @@ def replay(res, rp):
     i = rp["input"]
     work = common.scratch_dir()
     src, dest = os.path.join(work, "src"), os.path.join(work, "dest")
+    if i.get("same_place"):
+        write_ctree(src, i["tree"])
+        how = i["same_place"]
+        dest = src if how == "same-path" else os.path.join(src, ".") if how == "dot" else os.path.join(work, "link")
+        if how == "symlink":
+            os.symlink(src, dest)
+        before = {p: v[0] for p, v in snapshot(src)[0].items()}
+        try:
+            drf_command.main([i["argv"][0], src, dest])
+            err = None
+        except Exception as e:  # noqa
+            err = type(e).__name__
+        after = {p: v[0] for p, v in snapshot(src)[0].items()}
+        print("drf", i["argv"][0], "<src> onto itself (%s): error %s; files before %d, after %d" % (how, err, len(before), len(after)))
+        print("replay verdict:", "STILL VIOLATING" if after != before else "no longer violating")
+        return 1 if after != before else 0
     xwork = None
     if i.get("dest_on_another_filesystem") and second_filesystem(work):
         xwork = tempfile.mkdtemp(prefix="c18x-", dir=second_filesystem(work))
